@@ -327,7 +327,7 @@ def a_action_tracking(ctx, t):
                   "%s: if that action has not finished, the flow's end no longer sends its Stop event and the action outlives the flow" % why, line=n.lineno)
 
 
-def d_cleanup_keeps_reference(ctx, t):
+def d_cleanup_keeps_reference(ctx, t, rule="C06.d.cleanup-keeps-reference"):
     """The ended first instance of an activated flow carries the activation counter and is the entry in its activator's child list; it must not be
     garbage-collected while activated > 0: `activated == 0` has to be a necessary condition of removal."""
     fn = find_function(t, "_clean_up_state")
@@ -343,7 +343,7 @@ def d_cleanup_keeps_reference(ctx, t):
                 te = p.test
                 conj += list(te.values) if isinstance(te, ast.BoolOp) and isinstance(te.op, ast.And) else [te]
         ok = any(re.sub(r"\s", "", src(c)) in ("flow_state.activated==0", "notflow_state.activated", "flow_state.activated<=0", "flow_state.activated<1") for c in conj)
-        ctx.check("C06.d.cleanup-keeps-reference", SM, fn.name, first_line(a, 70), ok,
+        ctx.check(rule, SM, fn.name, first_line(a, 70), ok,
                   "a flow state is collected only if `activated == 0` (a necessary conjunct of the removal condition)" if ok else
                   "an ended flow state can be collected while `activated > 0`: the reference instance that carries the activation counter disappears, the activator's end no longer "
                   "deactivates the restarted instance, which runs and restarts forever", line=a.lineno)
